@@ -515,7 +515,7 @@ package grumpkin
 //@ cut after call io.Writer.Write #*
 //@ + ghost failed = failed || !isnil(callresult1)
 //@ cut before call io.Writer.Write #*
-//@ + invariant[bytes-of-the-point] len(callarg1) == len(resultof_Bytes) && forall(j, 0, len(resultof_Bytes), callarg1[j] == resultof_Bytes[j])
+//@ + invariant[bytes-of-the-point] called(Bytes) && len(callarg1) == len(resultof_Bytes) && forall(j, 0, len(resultof_Bytes), callarg1[j] == resultof_Bytes[j])
 //@ loop 0
 //@ + invariant[index] 0 <= iter && iter <= 1099511627776
 //@ + invariant[no-failure-so-far] !failed
@@ -544,7 +544,7 @@ package grumpkin
 //@ cut after call io.Writer.Write #*
 //@ + ghost failed = failed || !isnil(callresult1)
 //@ cut before call io.Writer.Write #*
-//@ + invariant[bytes-of-the-point] len(callarg1) == len(resultof_Bytes) && forall(j, 0, len(resultof_Bytes), callarg1[j] == resultof_Bytes[j])
+//@ + invariant[bytes-of-the-point] called(Bytes) && len(callarg1) == len(resultof_Bytes) && forall(j, 0, len(resultof_Bytes), callarg1[j] == resultof_Bytes[j])
 //@ loop 0
 //@ + invariant[index] 0 <= iter && iter <= 1099511627776
 //@ + invariant[no-failure-so-far] !failed
@@ -726,7 +726,7 @@ package grumpkin
 //@ cut after call io.Writer.Write #*
 //@ + ghost failed = failed || !isnil(callresult1)
 //@ cut before call io.Writer.Write #*
-//@ + invariant[bytes-of-the-point] len(callarg1) == len(resultof_RawBytes) && forall(j, 0, len(resultof_RawBytes), callarg1[j] == resultof_RawBytes[j])
+//@ + invariant[bytes-of-the-point] called(RawBytes) && len(callarg1) == len(resultof_RawBytes) && forall(j, 0, len(resultof_RawBytes), callarg1[j] == resultof_RawBytes[j])
 //@ loop 0
 //@ + invariant[index] 0 <= iter && iter <= 1099511627776
 //@ + invariant[no-failure-so-far] !failed
@@ -755,7 +755,7 @@ package grumpkin
 //@ cut after call io.Writer.Write #*
 //@ + ghost failed = failed || !isnil(callresult1)
 //@ cut before call io.Writer.Write #*
-//@ + invariant[bytes-of-the-point] len(callarg1) == len(resultof_RawBytes) && forall(j, 0, len(resultof_RawBytes), callarg1[j] == resultof_RawBytes[j])
+//@ + invariant[bytes-of-the-point] called(RawBytes) && len(callarg1) == len(resultof_RawBytes) && forall(j, 0, len(resultof_RawBytes), callarg1[j] == resultof_RawBytes[j])
 //@ loop 0
 //@ + invariant[index] 0 <= iter && iter <= 1099511627776
 //@ + invariant[no-failure-so-far] !failed
